@@ -1,9 +1,9 @@
 -------------------------------- MODULE MC_Stats --------------------------------
 EXTENDS Stats, Json
 VARIABLES cfg, step
-Fields == <<"ds", "nreg", "name", "minmax", "threads">>
+Fields == <<"ds", "nreg", "name", "minmax", "threads", "rmode">>
 Dom(f) == CASE f = "ds" -> {1, 2} [] f = "nreg" -> {1, 3, 40} [] f = "name" -> {"col4", "col5", "interval", "none", "default"}
-            [] f = "minmax" -> {0, 1} [] f = "threads" -> {1, 2, 3, 8, 16}
+            [] f = "minmax" -> {0, 1} [] f = "threads" -> {1, 2, 3, 8, 16} [] f = "rmode" -> {"mix", "win"}
 Data(ds) == CASE ds = 1 -> << <<1, 2, 5, 3>>, <<1, 5, 6, 1>>, <<1, 9, 12, 2>>, <<2, 0, 4, 7>>, <<2, 6, 7, 1>> >>
               [] ds = 2 -> << <<1, 0, 1, 1>>, <<1, 3, 9, 4>>, <<2, 2, 3, 2>>, <<3, 1, 2, 5>>, <<3, 2, 14, 1>> >>
 NChr(ds) == IF ds = 1 THEN 2 ELSE 3
@@ -12,10 +12,15 @@ NChr(ds) == IF ds = 1 THEN 2 ELSE 3
 RegionAt(ds, i) == LET c == 1 + (i % NChr(ds))
                        s == (i * 7) % 13
                        e == s + 1 + ((i * 5) % 6) IN <<c, s, e>>
-Regions(ds, n) == [i \in 1..n |-> RegionAt(ds, i)]
+\* "win": fixed-width windows tiling each chromosome from base 0 (the usual way such a tool is driven):
+\* consecutive rows of equal width, some over data, some over gaps
+WinAt(ds, i) == LET w == 2 + (ds % 2)
+                    c == 1 + (((i - 1) \div 8) % NChr(ds))
+                    s == ((i - 1) % 8) * w IN <<c, s, s + w>>
+Regions(ds, n, m) == [i \in 1..n |-> IF m = "win" THEN WinAt(ds, i) ELSE RegionAt(ds, i)]
 Init == cfg = <<>> /\ step = 1
 Next == step <= Len(Fields) /\ \E v \in Dom(Fields[step]) : cfg' = Append(cfg, v) /\ step' = step + 1
 Done == step > Len(Fields)
-Emit == Done => PrintT(<<"REPLAY", ToJson([ds |-> cfg[1], items |-> Data(cfg[1]), regions |-> Regions(cfg[1], cfg[2]), name |-> cfg[3],
+Emit == Done => PrintT(<<"REPLAY", ToJson([ds |-> cfg[1], items |-> Data(cfg[1]), regions |-> Regions(cfg[1], cfg[2], cfg[6]), name |-> cfg[3],
                                             minmax |-> cfg[4], threads |-> cfg[5]])>>)
 =============================================================================
